@@ -7,7 +7,7 @@
        refcnt o = [Loan o] + [History o] + sum over the connections c of p's table of [o in used c]
        o on the free list  <->  refcnt o = 0,   free list NoDup, inside the segment
        for every connection c of the table:  used c = sub c + borrowed c + comp c  (multisets, NoDup),
-       |sub c| <= B, borrow counter = |borrowed c| <= M, |sub c| + |borrowed c| + |comp c| <= B + M
+       |sub c| <= B, borrow counter = |borrowed c| <= M, |sub c| + |borrowed c| + |comp c| <= B + M + 1
        loan counter = number of live loans <= L, |history| <= H
    and every live sample of a registered subscriber still has its connection in the table of its
    (active) publisher.  `borrowed c` = the live Samples received through c, whether or not their
@@ -40,7 +40,7 @@ Theorem c02_conservation_partial :
   /\ (forall c bor c' e, conn_inv c bor -> c_receive c = (c', RcvOk (Some e)) ->
         c_used c' = c_used c /\ c_sub c = e :: c_sub c' /\ conn_inv c' (bor ++ [q_off e]))
   /\ (forall c bor o bor', conn_inv c bor -> minus_one bor o bor' ->
-        length (c_sub c) + length bor + length (c_comp c) <= c_B c + c_M c ->
+        length (c_sub c) + length bor + length (c_comp c) <= c_B c + c_M c + 1 ->
         exists c', c_release c o = Val (c', true) /\ c_used c' = c_used c /\ c_comp c' = c_comp c ++ [o] /\ conn_inv c' bor')
   /\ (forall c bor c' o, conn_inv c bor -> c_reclaim c = (c', RSome o) ->
         (forall x, cnt (c_used c) x = cnt [o] x + cnt (c_used c') x) /\ c_comp c = o :: c_comp c' /\ conn_inv c' bor)
